@@ -9,5 +9,7 @@ CONSTANTS
   Gen = FALSE
   StripProps = {"hash_c1", "hash_c2"}
   Weak = {"ch1@reply"}
+  GuidBytes = {}
+  Vias = {"disc"}
 INVARIANT Inv_NoViolation
 CHECK_DEADLOCK FALSE
